@@ -384,7 +384,8 @@ def obs_plan(r, lang, base, v0):
     """choose directives to insert; returns alines with back-pointers: list of (aline, orig base index or None)"""
     _, _, st, _ = LANGS[lang]
     a = [(["Plain", l], i) for i, l in enumerate(base)]
-    target = r.choice(v0)
+    rare = [v for v in v0 if PKG_OF_PREFIX[prefix_of(v[0])] in ("cqs", "lbyl", "clone_abuse", "srp", "performance")]
+    target = r.choice(rare) if rare and r.random() < 0.3 else r.choice(v0)   # keep the linters with few violations per file covered
     trule, tline = target[0], target[1]
     others = [x for x in RULES if prefix_of(x) != prefix_of(trule)]
 
